@@ -503,8 +503,21 @@ func TestCheck(t *testing.T) {
 		scenarios = rest
 		cmd := exec.Command(os.Args[0], "-test.run", "^TestCheck$", "-test.timeout", "0")
 		cmd.Env = append(os.Environ(), "VERIF_C09_CHILD=1", "VERIF_OUT=/dev/shm/verif-c09-child")
+		cmd.Env = append(cmd.Env, "GOMAXPROCS=4") // few threads: the address-space limit also bounds thread stacks
 		out, err := runLimited(cmd, 4<<30, 300*time.Second)
-		if err != nil {
+		runaway := func(out string, err error) bool {
+			return err != nil && (strings.Contains(err.Error(), "deadline") || strings.Contains(out, "out of memory") || strings.Contains(out, "cannot allocate memory"))
+		}
+		for attempt := 0; err != nil && !runaway(out, err) && attempt < 2; attempt++ {
+			// the child died for another reason (e.g. thread creation refused under the address-space limit
+			// on a loaded machine): not what this scenario is about; run it again with more head room
+			cmd = exec.Command(os.Args[0], "-test.run", "^TestCheck$", "-test.timeout", "0")
+			cmd.Env = append(os.Environ(), "VERIF_C09_CHILD=1", "VERIF_OUT=/dev/shm/verif-c09-child", "GOMAXPROCS=4")
+			out, err = runLimited(cmd, 12<<30, 300*time.Second)
+		}
+		if err != nil && !runaway(out, err) {
+			c.InternalError("the child process running the corrupted-input scenarios failed for a reason other than its limits: %v: %.600s", err, out)
+		} else if err != nil {
 			tail := out
 			if len(tail) > 600 {
 				tail = tail[:600]
